@@ -1,7 +1,7 @@
 //! C13 — the CFG contains every source execution, statement by statement: for every decision
 //! string (loops unrolled up to K per entry) the structural walker over the generator's syntax
 //! and the walker over the real CFG must emit the same statement sequence.
-use super::cfgcheck::{dump_cfg, marker_def, MARKER_ATOM_KINDS};
+use super::cfgcheck::{dump_cfg, marker_def_for, MARKER_ATOM_KINDS};
 use crate::infra::{par_each, Run, Violation};
 use crate::refsem::walk::{explore_paths, walk_cfg, CfgEnd, SrcWalk};
 use crate::space::prog::{print_def, Def, Printed};
@@ -142,13 +142,24 @@ fn digits(mut i: usize, radix: usize, n: usize) -> Vec<usize> {
 fn sweep(run: &Run, name: &str, skels: &[Vec<Sk>], max: usize, unroll: usize, atom_kinds: usize) {
     par_each(skels, |i, skel| {
         let atoms: usize = skel.iter().map(|s| s.atoms()).sum();
+        let fors: usize = skel.iter().map(|s| s.fors()).sum();
         let combos = atom_kinds.pow(atoms as u32);
         for combo in 0..combos {
-            for is_function in [true, false] {
+          // All header-form combinations in the `atoms` sweep; uniform forms elsewhere.
+          let for_combos: Vec<usize> = if name == "atoms" {
+              (0..(1usize << fors)).collect()
+          } else if fors == 0 {
+              vec![0]
+          } else {
+              vec![0, (1usize << fors) - 1]
+          };
+          for for_combo in for_combos {
+            let for_choice = digits(for_combo, 2, fors);
+            for (is_function, prologue) in [(true, true), (false, true), (true, false), (false, false)] {
                 let choice = digits(combo, atom_kinds, atoms);
                 let case = json!({"kind": "skeleton", "sweep": name, "max_stmts": max, "index": i,
-                    "function": is_function, "unroll": unroll, "atoms": choice});
-                let def = marker_def(skel, is_function, choice);
+                    "function": is_function, "unroll": unroll, "atoms": choice, "prologue": prologue, "fors": for_choice});
+                let def = marker_def_for(skel, is_function, choice, prologue, for_choice.clone());
                 let (violations, stats) = check_def(&def, unroll, &case, 50_000);
                 run.eval(1);
                 run.add_traces(stats.paths as u64);
@@ -168,6 +179,7 @@ fn sweep(run: &Run, name: &str, skels: &[Vec<Sk>], max: usize, unroll: usize, at
                 }
                 run.violations(violations);
             }
+          }
         }
     });
 }
@@ -175,13 +187,13 @@ fn sweep(run: &Run, name: &str, skels: &[Vec<Sk>], max: usize, unroll: usize, at
 pub fn run(run: &Run) {
     let unroll = run.tier.pick(2, 3);
     let full = run.tier.pick(4, 5);
-    let deep = run.tier.pick(6, 7);
+    let deep = run.tier.pick(5, 7);
     let atoms = run.tier.pick(3, 4);
     run.set_rule(&format!(
         "sweep `full`: every skeleton <= {full} statements (depth <= 3; braced, empty and bare \
          bodies, blocks, for) with marker atoms; sweep `deep`: braced non-empty bodies <= {deep} \
          statements; sweep `atoms`: every skeleton <= {atoms} statements with every atom drawn from \
-         {{x = k, x += k, x--, return x | assert(x)}}; each as function and template; for each \
+         {{x = k, x += k, x--, return x | assert(x)}}; each as function and template, with and without a `var x = 0;` prologue, every `for` in both header forms (`var i = 0` / assignment to an existing variable); for each \
          program every decision string with loops unrolled <= {unroll} times per entry, walked in \
          lock-step on the generator's syntax and on the real CFG (before and after SSA); \
          non-trivial = program with more than one path"
@@ -207,7 +219,14 @@ pub fn replay(case: &Value) -> Vec<Violation> {
     let sweep = case["sweep"].as_str().unwrap_or("full");
     let skels = enumerate(opts(sweep, max));
     match skels.get(index) {
-        Some(skel) => check_def(&marker_def(skel, is_function, choice), unroll, case, 50_000).0,
+        Some(skel) => {
+            let fors: Vec<usize> = case["fors"]
+                .as_array()
+                .map(|a| a.iter().map(|v| v.as_u64().unwrap_or(0) as usize).collect())
+                .unwrap_or_default();
+            let def = marker_def_for(skel, is_function, choice, case["prologue"].as_bool().unwrap_or(true), fors);
+            check_def(&def, unroll, case, 50_000).0
+        }
         None => Vec::new(),
     }
 }
